@@ -63,20 +63,22 @@ func queryConfigs(thorough bool) []qcfg {
 		universe: []val.Item{
 			it("h", val.S("p"), "r", val.S("a"), "g", val.S("x"), "s", val.S("1"), "a", val.S("v")),
 			it("h", val.S("p"), "r", val.S("ab"), "g", val.S("x"), "s", val.S("1")),
-			it("h", val.S("p"), "r", val.S("b"), "a", val.S("w")),
+			// (a sort key beginning with a code point beyond U+FFFF: it sorts after every "sentinel" a
+			// range computation over key strings might use)
+			it("h", val.S("p"), "r", val.S("\U0001F600b"), "a", val.S("w")),
 			it("h", val.S("p.q"), "r", val.S("a"), "g", val.S("x"), "s", val.S("0"), "a", val.S("v")),
 			it("h", val.S("p"), "r", val.S("a.b"), "g", val.S("y"), "s", val.S("2")),
 		},
 		hashVals:  map[string][]val.V{"": sv("p", "p.q", "zz"), "gsi": sv("x", "y", "zz"), "lsi": sv("p", "p.q")},
-		rangeVals: map[string][]val.V{"": sv("a", "ab", "b", "a.b", "aa"), "gsi": sv("0", "1", "2", "11"), "lsi": sv("0", "1", "2")},
-		prefixes:  map[string][]val.V{"": sv("a", "ab", "b", "a.", "z"), "gsi": sv("1", "x"), "lsi": sv("1")},
+		rangeVals: map[string][]val.V{"": sv("a", "ab", "\U0001F600b", "a.b", "aa", "\uffff"), "gsi": sv("0", "1", "2", "11"), "lsi": sv("0", "1", "2")},
+		prefixes:  map[string][]val.V{"": sv("a", "ab", "\U0001F600", "a.", "z"), "gsi": sv("1", "x"), "lsi": sv("1")},
 	}
 	if thorough {
 		a.universe = append(a.universe,
 			it("h", val.S("p.q"), "r", val.S("b"), "g", val.S("y"), "s", val.S("2"), "a", val.S("v")),
-			it("h", val.S("p"), "r", val.S("c"), "g", val.S("x")),
+			it("h", val.S("p"), "r", val.S("\uffffc"), "g", val.S("x")),
 		)
-		a.rangeVals[""] = append(a.rangeVals[""], val.S("c"))
+		a.rangeVals[""] = append(a.rangeVals[""], val.S("\uffffc"))
 	}
 	b := qcfg{
 		name: "HR(S,N)+GSI(g,n)",
